@@ -1,2 +1,104 @@
-(* Model/Stream.v — failing writers / delivery configurations shared by C06 and C07; no proofs. *)
+(* Model/Stream.v — failing writers / delivery configurations shared by C06 and
+   C07; no proofs.
+
+   Readers.  Every format model already has the shape
+       decode : (delivered bytes) -> (terminal condition) -> items
+   (DESIGN.md section 3, "Input streams"): the buffered-reader contracts of
+   Base.v (ReadByte/UnreadByte, Scanner+ScanLines = [scan_tokens], ReadString =
+   [rs_lines]) see the stream only as "the bytes in order, then the terminal
+   condition once".  How the io.Reader cut the bytes into Read results (the
+   schedule) is therefore not an input of any model function: [of_schedule]
+   below forgets it.  That the implementation really reaches the bytes only
+   through those contracts is what the C06 correspondence run tests.
+
+   Writers.  A Write method is the list of chunks it hands to the io.Writer
+   (one per Fprintf / Write call); [limit_write k] is helpers.go's limitWriter:
+   it accepts k bytes in total, writes the first chunk that does not fit
+   partially and returns the error, after which the Write method returns at
+   once (every Fprintf result is checked). *)
 From Bio Require Import Base.
+From Bio.Model Require Fasta Fastq Sam Bed Newick.
+
+(* ------------------------------------------------------------------ *)
+(* schedules                                                            *)
+
+(* A schedule is the list of the successive Read results (a [] is a
+   zero-length read).  What the buffered readers hand on is their
+   concatenation. *)
+Definition of_schedule (cs : list bytes) : bytes := concat cs.
+
+(* ------------------------------------------------------------------ *)
+(* a writer that starts failing after k bytes                           *)
+
+(* result of the Write method (Ok tt: every call was accepted; Err: some call
+   returned the error) and the bytes that reached the writer *)
+Fixpoint limit_write (k : nat) (calls : list bytes) : outcome unit * bytes :=
+  match calls with
+  | [] => (Ok tt, [])
+  | c :: r =>
+    if (length c <=? k)%nat then
+      let '(o, out) := limit_write (k - length c) r in (o, c ++ out)
+    else (Err, firstn k c)                  (* len(buf)+len(p) > limit *)
+  end.
+
+Definition write_to_fasta (k : nat) (r : Fasta.fasta) : outcome unit * bytes :=
+  limit_write k (Fasta.write_calls r).
+
+Definition write_to_fastq (k : nat) (r : Fastq.fastq) : outcome unit * bytes :=
+  limit_write k (Fastq.write_calls r).
+
+Definition write_to_sam (o : foracle) (k : nat) (r : Sam.sam) : outcome unit * bytes :=
+  limit_write k (Sam.write_calls o r).
+
+(* BED.Write refuses N outside 3..12 before it touches the writer *)
+Definition write_to_bed (k : nat) (b : Bed.bed) : outcome unit * bytes :=
+  match Bed.write_calls b with
+  | Ok cs => limit_write k cs
+  | Err => (Err, [])
+  | Panic => (Panic, [])
+  end.
+
+Definition write_to_newick (o : foracle) (k : nat) (t : Newick.tree) : outcome unit * bytes :=
+  limit_write k (Newick.write_chunks o t).
+
+(* ------------------------------------------------------------------ *)
+(* File(path)                                                           *)
+
+(* File = aio.Open + Reader + deferred Close.  [opened]: whether os.Open
+   succeeded; if not, the iterator yields exactly one error and stops.
+   [gz]: the path ends in ".gz" and aio wraps the file in a gzip reader.
+   Compression is an abstract lossless transport here: a file named *.gz whose
+   *content* (what gzip decompresses to) is [content] delivers [content]; so
+   the model is the identity on the content whatever [gz] is.  (That Go's
+   gzip writer/reader pair is lossless is compress/gzip's contract; the C06
+   correspondence run exercises it on every case with mode 1.)  A regular file
+   ends with a clean EOF. *)
+Definition file_run {R : Type} (open_error : R) (opened gz : bool)
+    (dec : bytes -> term -> R) (content : bytes) : R :=
+  if opened then dec (if gz then content else content) TEOF else open_error.
+
+Definition file_items {A : Type} (opened gz : bool)
+    (dec : bytes -> term -> list (item A)) (content : bytes) : list (item A) :=
+  file_run [ErrItem] opened gz dec content.
+
+(* ------------------------------------------------------------------ *)
+(* CRLF line terminators                                                *)
+
+(* every LF replaced by CR LF *)
+Fixpoint crlf (s : bytes) : bytes :=
+  match s with
+  | [] => []
+  | c :: r => if c =? LF then CR :: LF :: crlf r else c :: crlf r
+  end.
+
+(* ------------------------------------------------------------------ *)
+(* files of records, as the writers produce them (the well-formed inputs
+   of C06's CRLF clause and of C07's fault clause)                      *)
+
+Definition fasta_file (rs : list Fasta.fasta) : bytes := concat (map Fasta.write rs).
+Definition fastq_file (rs : list Fastq.fastq) : bytes := concat (map Fastq.write rs).
+Definition sam_file (o : foracle) (hs : list bytes) (rs : list Sam.sam) : bytes :=
+  Sam.file_text o [LF] hs rs.
+Definition bed_file (bs : list Bed.bed) : outcome bytes := Bed.write_file bs.
+Definition newick_file (o : foracle) (ts : list Newick.tree) : bytes :=
+  concat (map (fun t => Newick.marshal o t ++ [LF]) ts).
